@@ -199,7 +199,8 @@ def pre_class(pre, flavour):
     """Abstract class of the spec pre-state for calls without path arguments (commit, revert): the structural features
     that the tree-wide operations are sensitive to.
       similar  (git) an added file has the content of a basis file at another path - what rename / copy detection pairs
-      blocked  the path of a basis entry holds something of another kind on disk (file where a directory was, ...)"""
+      blocked  the path of a basis entry holds something of another kind on disk (file where a directory was, ...)
+      kindchange  an entry whose recorded kind differs from what its path holds now (file id on a directory, ...)"""
     cl = set()
     basis, disk, ver = pre["basis"], pre["disk"], pre["ver"]
     bdirs = {p.rsplit("/", 1)[0] for p in basis if "/" in p} | {p for p, e in basis.items() if e[0] == "dir"}
@@ -212,6 +213,8 @@ def pre_class(pre, flavour):
         want_kind = "dir" if p in bdirs else basis[p][0]
         if p in disk and disk[p][0] != want_kind:
             cl.add("blocked")
+    if any(ko != kn and "none" not in (ko, kn) for o, n, cc, ko, kn, eo, en in pre["changes"]):
+        cl.add("kindchange")
     return "+".join(sorted(cl)) or "plain"
 
 
